@@ -7,7 +7,8 @@ must agree with it."""
 PROPS = ('C18',)
 RACE_PROBES = ('equal_sources_many_objects', 'gauge_a_b_a', 'reservoir_overflow', 'interleaved_writers',
                'series_older_than_max_agg_age_still_recorded',
-               'aggregate_while_writing', 'metric_first_seen_during_aggregate')
+               'aggregate_while_writing', 'metric_first_seen_during_aggregate',
+               'two_blocks_same_attribute_same_source')
 SHRINK_KEYS = ('ops',)
 
 
@@ -26,6 +27,10 @@ def generate(rng, tier='quick', **kw):
                     'endpoint': rng.choice([None, 'h:1', 'h:2']), 'client_id': rng.choice([None, None, 'cid'])})
   n_obj = rng.randint(1, 6)
   objs = [rng.randrange(n_src) for _ in range(n_obj)]       # object k uses a fresh Source equal to sources[objs[k]]
+  # a second Varz block with the same attribute names (as thrift's and thriftmux's
+  # transport blocks have) over equal sources: distinct metrics all the same
+  two = rng.random() < 0.35
+  cls = [rng.randrange(2) if two else 0 for _ in range(n_obj)]
   ops = []
   n_ops = rng.randint(5, 120 if tier == 'quick' else 400)
   big = rng.random() < 0.1
@@ -46,7 +51,7 @@ def generate(rng, tier='quick', **kw):
       ops.append({'g': g, 'op': 'sample', 'obj': o, 'val': round(rng.choice([0.001, 0.01, 0.5]) * rng.random(), 6)})
     else:
       ops.append({'g': g, 'op': 'fresh', 'obj': o})        # re-create object o (new Source, new Varz)
-  return {'world': 'w_varz', 'sources': sources, 'objs': objs, 'ops': ops}
+  return {'world': 'w_varz', 'sources': sources, 'objs': objs, 'ops': ops, 'cls': cls}
 
 
 def run(scn):
@@ -59,11 +64,25 @@ def run(scn):
     _VARZ_BASE_NAME = 'sim.varz'
     _VARZ = {'count': Counter, 'count2': Counter, 'count3': Counter, 'rate': Rate, 'gauge': Gauge, 'lat': AverageTimer}
 
+  class V2(VarzBase):
+    _VARZ_BASE_NAME = 'sim.varz2'
+    _VARZ = {'count': Counter, 'count2': Counter, 'count3': Counter, 'rate': Rate, 'gauge': Gauge, 'lat': AverageTimer}
+
   srcs = scn['sources']
+  cls_of = scn.get('cls') or [0] * len(scn['objs'])
+  if len(set((c, o) for c, o in zip(cls_of, scn['objs']))) > len(set(scn['objs'])):
+    REC.probe('two_blocks_same_attribute_same_source')
+
+  def mname(k, name):
+    # model / metric name of attribute `name` of object k
+    return ('2:' + name) if cls_of[k] else name
+
+  def metric_of(name):
+    return 'sim.varz2.' + name[2:] if name.startswith('2:') else 'sim.varz.' + name
 
   def mk(k):
     d = srcs[scn['objs'][k]]
-    return V(Source(method=d['method'], service=d['service'], endpoint=d['endpoint'], client_id=d['client_id']))
+    return (V2 if cls_of[k] else V)(Source(method=d['method'], service=d['service'], endpoint=d['endpoint'], client_id=d['client_id']))
   objs = [mk(k) for k in range(len(scn['objs']))]
   if len(scn['objs']) > len(set(scn['objs'])):
     REC.probe('equal_sources_many_objects')
@@ -71,8 +90,9 @@ def run(scn):
   def key(k):
     d = srcs[scn['objs'][k]]
     return (d['method'], d['service'], d['endpoint'], d['client_id'])
-  model = {'count': {}, 'count2': {}, 'count3': {}, 'rate': {}, 'gauge': {}, 'lat': {}}
-  COUNTERS = ('count', 'count2', 'count3', 'rate')
+  model = {'count': {}, 'count2': {}, 'count3': {}, 'rate': {}, 'gauge': {}, 'lat': {},
+           '2:count': {}, '2:count2': {}, '2:count3': {}, '2:rate': {}, '2:gauge': {}, '2:lat': {}}
+  COUNTERS = ('count', 'count2', 'count3', 'rate', '2:count', '2:count2', '2:count3', '2:rate')
   agg_state = {'running': 0}
 
   def snapshot():
@@ -100,12 +120,12 @@ def run(scn):
       for kk, w in after[name].items():
         hi[(kk[1], kk[3])] = hi.get((kk[1], kk[3]), 0) + w
       for k2, h in hi.items():
-        got = a.get('sim.varz.' + name, {}).get(k2)
+        got = a.get(metric_of(name), {}).get(k2)
         got = 0 if got is None else got.total
         if not (lo.get(k2, 0) <= got <= h):
           REC.violation('C18', 'aggregate_mismatch',
-                        'sim.varz.%s %r: concurrent aggregate %r outside [%r, %r] (increments before / after it ran)' % (
-                          name, k2, got, lo.get(k2, 0), h), {'metric': name, 'concurrent': True})
+                        '%s %r: concurrent aggregate %r outside [%r, %r] (increments before / after it ran)' % (
+                          metric_of(name), k2, got, lo.get(k2, 0), h), {'metric': name, 'concurrent': True})
   last_writer = {}
   hist = {}
 
@@ -118,7 +138,8 @@ def run(scn):
         gevent.sleep(0)
         continue
       if agg_state['running'] and op['op'] != 'fresh':
-        nm = 'sim.varz.' + {'count': op.get('name', 'count'), 'rate': 'rate', 'gauge': 'gauge', 'sample': 'lat'}[op['op']]
+        nm = metric_of(mname(op['obj'], {'count': op.get('name', 'count'), 'rate': 'rate', 'gauge': 'gauge',
+                                         'sample': 'lat'}[op['op']]))
         if nm not in VarzReceiver.VARZ_DATA:
           REC.probe('metric_first_seen_during_aggregate')
       k = op['obj']
@@ -127,20 +148,21 @@ def run(scn):
       if op['op'] == 'count':
         nm = op.get('name', 'count')
         getattr(o, nm)(op['amt'])
+        nm = mname(k, nm)
         model[nm][kk] = model[nm].get(kk, 0) + op['amt']
       elif op['op'] == 'rate':
         o.rate()
-        model['rate'][kk] = model['rate'].get(kk, 0) + 1
+        model[mname(k, 'rate')][kk] = model[mname(k, 'rate')].get(kk, 0) + 1
       elif op['op'] == 'gauge':
         o.gauge(op['val'])
-        h = hist.setdefault(kk, [])
+        h = hist.setdefault((cls_of[k], kk), [])
         h.append((k, op['val']))
         if len(h) >= 3 and h[-1] == h[-3] and h[-2][0] != k and h[-2][1] != op['val']:
           REC.probe('gauge_a_b_a')
-        model['gauge'][kk] = op['val']
+        model[mname(k, 'gauge')][kk] = op['val']
       elif op['op'] == 'sample':
         o.lat(op['val'])
-        model['lat'].setdefault(kk, []).append(op['val'])
+        model[mname(k, 'lat')].setdefault(kk, []).append(op['val'])
       else:
         objs[k] = mk(k)
       if last_writer.get('g') not in (None, g):
@@ -170,8 +192,8 @@ def run(scn):
     REC.probe('series_older_than_max_agg_age_still_recorded')
 
   data = VarzReceiver.VARZ_DATA
-  for name in ('count', 'count2', 'count3', 'rate', 'gauge', 'lat'):
-    metric = 'sim.varz.' + name
+  for name in sorted(model):
+    metric = metric_of(name)
     series = data.get(metric, {})
     by_key = {}
     for s, v in series.items():
@@ -187,7 +209,7 @@ def run(scn):
         if got != w:
           REC.violation('C18', 'counter_mismatch', '%s %r: recorded increments sum to %r, series holds %r' % (metric, kk, w, got),
                         {'metric': name})
-      elif name == 'gauge':
+      elif name.endswith('gauge'):
         if not vals or vals[-1] != w or any(v != w for v in vals):
           REC.violation('C18', 'gauge_not_last_value', '%s %r: last value set was %r, series holds %r' % (metric, kk, w, vals))
       else:
@@ -206,14 +228,15 @@ def run(scn):
     for kk, w in model[name].items():
       per[(kk[1], kk[3])] = per.get((kk[1], kk[3]), 0) + w
     for k2, w in per.items():
-      a = agg.get('sim.varz.' + name, {}).get(k2)
+      a = agg.get(metric_of(name), {}).get(k2)
       if a is None or a.total != w:
-        REC.violation('C18', 'aggregate_mismatch', 'sim.varz.%s %r: aggregate %r, sum of increments %r' % (
-          name, k2, None if a is None else a.total, w), {'metric': name})
-  per_src = VarzAggregator.Aggregate({'sim.varz.lat': data.get('sim.varz.lat', {})}, VarzReceiver.VARZ_METRICS,
+        REC.violation('C18', 'aggregate_mismatch', '%s %r: aggregate %r, sum of increments %r' % (
+          metric_of(name), k2, None if a is None else a.total, w), {'metric': name})
+  lats = [metric_of(n) for n in ('lat', '2:lat')]
+  per_src = VarzAggregator.Aggregate(dict((m, data.get(m, {})) for m in lats), VarzReceiver.VARZ_METRICS,
                                      key_selector=lambda s: s.to_tuple())
-  for kk, a in per_src.get('sim.varz.lat', {}).items():
-    vals = model['lat'].get(kk)
+  for lname, kk, a in [(n, kk, a) for n in ('lat', '2:lat') for kk, a in per_src.get(metric_of(n), {}).items()]:
+    vals = model[lname].get(kk)
     if not vals or not isinstance(a.total, list):
       continue
     lo, hi = min(vals) - 1e-12, max(vals) + 1e-12
